@@ -242,7 +242,10 @@ RECIPES["C04"] = {
 
 IAUTH_NOMISC = ["env/misc_stub.c"] + [x for x in IAUTH if x != "repo:modules/iauth_misc.c"]
 LINE_UW = STEP_UNWINDSET + ["iauth_read.0:3", "iauth_read.1:100", "iauth_read.2:20", "iauth_read.3:100", "iauth_read.4:100",
-                            "known_cmd.0:20", "evbuffer_readln.0:100", "harness.0:100", "harness.1:100", "harness.2:100", "memcpy.0:100"]
+                            "known_cmd.0:20", "evbuffer_readln.0:100", "harness.0:100", "harness.1:100", "harness.2:100", "memcpy.0:100",
+                            # strings are bounded by the line buffer (<= 100 bytes): a pointer into a freed line must end in a
+                            # failed obligation, not in 800 unwindings of a copy loop over an invalid object
+                            "strcpy.0:100", "strncpy.0:100", "strdup.0:100", "strcasecmp.0:100", "strncasecmp.0:100", "memchr.0:100", "strrchr.0:100"]
 
 
 def _line_uw(d):
@@ -288,6 +291,11 @@ def _line_splits(thorough):
         # first line concrete (the symbolic part of these queries is the request's state): a stale
         # argument pointer into the freed first line is then a small, quickly refuted formula
         add("pair_U_%s" % c2, "7 U x y z", None, VP_TMPL2='"7 c"', VP_CMD2="'%s'" % c2, VP_ID_LIVE=None)
+    for c2 in ("NPnuHd" if thorough else "Nu"):
+        # the same with the request in the concrete state an announcement leaves behind: what the
+        # second line's handler is handed is then the only symbolic datum downstream (a stale pointer
+        # into the freed first line is refuted in seconds instead of exhausting memory)
+        add("pairf_U_%s" % c2, "7 U x y z", None, VP_TMPL2='"7 c"', VP_CMD2="'%s'" % c2, VP_ID_LIVE=None, VP_FRESH=None, _mem=2)
     if thorough:
         add("tabs_N", "7  c\\ta  a", "N", VP_ID_LIVE=None)
         add("four_U", "7 c a a a a", "U", VP_ID_LIVE=None)
